@@ -1,8 +1,9 @@
 """Single-edit breaks for C14 used by vf.selftest (applied to a scratch copy only).
 
-On the unchanged tree the check already exits 1 because of the get_purity finding
-(mechanism gaussian-purity-ignores-hbar); a mutant counts as caught only when a mechanism
-*other than that one* fires (listed per mutant in 'expect').
+'expect' names the mechanism key(s) that must fire for the mutant. While get_purity still ignored
+hbar (before "fix: GaussianState.get_purity takes hbar into account") every run exited 1 through
+gaussian-purity-ignores-hbar; each mutant was then verified to raise a mechanism other than that
+one. The regression mutant at the end re-introduces exactly that defect.
 """
 
 STATE = "piquasso/_simulators/gaussian/state.py"
@@ -15,12 +16,6 @@ MUTANTS = [
      "edits": [{"file": STATE,
                 "old": "        return dimensionless_xxpp_mean_vector * np.sqrt(self._config.hbar)\n",
                 "new": "        return dimensionless_xxpp_mean_vector * np.sqrt(2.0)\n"}]},
-    # a setter that forgets hbar
-    {"name": "xpxp-covariance-setter-assumes-hbar-2",
-     "expect": "setter-getter-roundtrip-covariance",
-     "edits": [{"file": STATE,
-                "old": "        dimensionless_cov = new_cov / self._config.hbar\n",
-                "new": "        dimensionless_cov = new_cov / 2.0\n"}]},
     # permutation slip: the two index maps coincide for d <= 2
     {"name": "xxpp-mean-setter-inverse-permutation",
      "expect": "setter-getter-roundtrip-mean / setter-paths-disagree (d >= 3)",
@@ -39,12 +34,6 @@ MUTANTS = [
      "edits": [{"file": STATE,
                 "old": "            G=(self._G * phase**2),\n",
                 "new": "            G=(self._G * phase),\n"}]},
-    # rotated(): direction of the rotation of the displacement
-    {"name": "rotated-mean-opposite-sign",
-     "expect": "rotated-mean",
-     "edits": [{"file": STATE,
-                "old": "            m=(self._m * phase),\n",
-                "new": "            m=(self._m * np.conj(phase)),\n"}]},
     # fidelity: displacement normalised with hbar instead of sqrt(hbar)
     {"name": "fidelity-mean-divided-by-hbar",
      "expect": "fidelity-depends-on-hbar",
@@ -63,28 +52,22 @@ MUTANTS = [
      "edits": [{"file": STATE,
                 "old": "        second_order_moments = cov_xxpp / 2 + 0.5j * hbar * xp_symplectic_form(d)\n",
                 "new": "        second_order_moments = cov_xxpp / 2 + 1.0j * xp_symplectic_form(d)\n"}]},
-    # complex covariance: C and conj(C) blocks swapped
-    {"name": "complex-covariance-blocks-swapped",
-     "expect": "complex-covariance-vs-quadratures",
-     "edits": [{"file": STATE,
-                "old": "            [[self._C.conj(), self._G], [self._G.conj(), self._C]]\n",
-                "new": "            [[self._C, self._G], [self._G.conj(), self._C.conj()]]\n"}]},
-    # Mean preparation not scaled with sqrt(hbar)
-    {"name": "mean-preparation-not-scaled",
-     "expect": "setter-paths-disagree / setter-getter-roundtrip-mean (path instr)",
-     "edits": [{"file": STEPS,
-                "old": "    state.xpxp_mean_vector = instruction._get_all_params(state._connector)[\n        \"mean\"\n    ] * np.sqrt(state._config.hbar)\n",
-                "new": "    state.xpxp_mean_vector = instruction._get_all_params(state._connector)[\n        \"mean\"\n    ] * np.sqrt(2.0)\n"}]},
     # channel noise not scaled with hbar: only gate programs with a channel see it
     {"name": "channel-noise-not-scaled",
      "expect": "*-depends-on-hbar on program cases (covariance / ladder moments / photon statistics)",
      "edits": [{"file": STEPS,
                 "old": "    Y = instruction._get_all_params(state._connector)[\"Y\"] * state._config.hbar\n",
                 "new": "    Y = instruction._get_all_params(state._connector)[\"Y\"] * 2.0\n"}]},
-    # a 'fix' of get_purity with the wrong power of hbar: must not be filed under the known mechanism
+    # get_purity back to the formula without hbar (the defect fixed by "fix: GaussianState.get_purity takes hbar into account")
+    {"name": "purity-ignores-hbar-regression",
+     "expect": "gaussian-purity-ignores-hbar",
+     "edits": [{"file": STATE,
+                "old": "            self._config.hbar**self.d\n            / np.sqrt(np.linalg.det(self.xxpp_covariance_matrix))\n",
+                "new": "            2**self.d\n            / np.sqrt(np.linalg.det(self.xxpp_covariance_matrix))\n"}]},
+    # get_purity with the wrong power of hbar: must be reported, and not under the key of the old defect
     {"name": "purity-wrong-power-of-hbar",
      "expect": "purity-depends-on-hbar",
      "edits": [{"file": STATE,
-                "old": "        return np.real(2**self.d / np.sqrt(np.linalg.det(self.xxpp_covariance_matrix)))\n",
-                "new": "        return np.real(self._config.hbar**(2 * self.d) / np.sqrt(np.linalg.det(self.xxpp_covariance_matrix)))\n"}]},
+                "old": "            self._config.hbar**self.d\n            / np.sqrt(np.linalg.det(self.xxpp_covariance_matrix))\n",
+                "new": "            self._config.hbar**(2 * self.d)\n            / np.sqrt(np.linalg.det(self.xxpp_covariance_matrix))\n"}]},
 ]
